@@ -48,15 +48,17 @@ Proof. intros H. destruct o; cbn [set]; [apply get_ins_neq|apply get_del_neq]; e
 
 (** * the per-id lifetime scanner
 
-    It reads the output stream of a run and, for one payment id, tracks whether a map entry has
-    ever been created ([sc_live]), whether a terminal event was emitted since the last creation
-    ([sc_seen]) and whether [claim_htlc] found the entry since the last creation ([sc_claimed]).
-    It rejects ([None]) a terminal event without a preceding creation, a second terminal event
-    within one lifetime, and a [PaymentFailed] after a claim hit the entry. *)
+    It reads the output stream of a run and, for one payment id, tracks whether the map currently
+    holds an entry ([sc_present]: set by a creation, cleared by [PaymentFailed] and by the two silent
+    removals [OGone]), whether a terminal event was emitted since the last creation ([sc_seen]) and
+    whether [claim_htlc] found the entry since the last creation ([sc_claimed]).
+    It rejects ([None]): a creation while an entry is present; a terminal event, a claim hit or a
+    removal while no entry is present; a second terminal event within one lifetime; a
+    [PaymentFailed] after a claim hit the entry. *)
 Inductive seen : Type := SNone | SSent | SFailed.
-Record scan : Type := { sc_live : bool; sc_seen : seen; sc_claimed : bool }.
+Record scan : Type := { sc_present : bool; sc_seen : seen; sc_claimed : bool }.
 
-Definition scan0 : scan := {| sc_live := false; sc_seen := SNone; sc_claimed := false |}.
+Definition scan0 : scan := {| sc_present := false; sc_seen := SNone; sc_claimed := false |}.
 
 Definition scan_step (id : Z) (st : option scan) (o : out) : option scan :=
   match st with
@@ -64,23 +66,34 @@ Definition scan_step (id : Z) (st : option scan) (o : out) : option scan :=
   | Some s =>
       match o with
       | OCreated i =>
-          if i =? id then Some {| sc_live := true; sc_seen := SNone; sc_claimed := false |} else st
+          if i =? id then
+            if sc_present s then None
+            else Some {| sc_present := true; sc_seen := SNone; sc_claimed := false |}
+          else st
       | OClaimHit i =>
-          if i =? id then Some {| sc_live := sc_live s; sc_seen := sc_seen s; sc_claimed := true |} else st
+          if i =? id then
+            if sc_present s then Some {| sc_present := true; sc_seen := sc_seen s; sc_claimed := true |}
+            else None
+          else st
+      | OGone i _ =>
+          if i =? id then
+            if sc_present s then Some {| sc_present := false; sc_seen := sc_seen s; sc_claimed := sc_claimed s |}
+            else None
+          else st
       | OEv (EvSent i _ _ _) =>
           if i =? id then
-            if sc_live s then
+            if sc_present s then
               match sc_seen s with
-              | SNone => Some {| sc_live := true; sc_seen := SSent; sc_claimed := sc_claimed s |}
+              | SNone => Some {| sc_present := true; sc_seen := SSent; sc_claimed := sc_claimed s |}
               | _ => None
               end
             else None
           else st
       | OEv (EvFailed i _ _) =>
           if i =? id then
-            if sc_live s && negb (sc_claimed s) then
+            if sc_present s && negb (sc_claimed s) then
               match sc_seen s with
-              | SNone => Some {| sc_live := true; sc_seen := SFailed; sc_claimed := false |}
+              | SNone => Some {| sc_present := false; sc_seen := SFailed; sc_claimed := false |}
               | _ => None
               end
             else None
@@ -103,7 +116,7 @@ Definition out_id (o : out) : option Z :=
   match o with
   | OEv (EvSent i _ _ _) | OEv (EvFailed i _ _) | OEv (EvPathOk i _) | OEv (EvPathFailed i _ _ _)
   | OEv (EvProbeOk i _) | OEv (EvProbeFailed i _) => Some i
-  | OCreated i | OClaimHit i => Some i
+  | OCreated i | OClaimHit i | OGone i _ => Some i
   | ONew _ i _ _ _ _ => Some i
   | ORes _ | OPanic => None
   end.
@@ -114,10 +127,12 @@ Definition only_about (id : Z) (outs : list out) : Prop :=
 Lemma scan_step_other id id' s o :
   id' <> id -> (out_id o = Some id' \/ out_id o = None) -> scan_step id (Some s) o = Some s.
 Proof.
-  intros Hne Ho. destruct o as [e| i | i | sp i h a f r | r |]; cbn [scan_step]; try reflexivity.
+  intros Hne Ho. destruct o as [e| i | i | sp i h a f r | r | i w |]; cbn [scan_step]; try reflexivity.
   - destruct e; cbn [out_id] in Ho; try reflexivity;
       (destruct Ho as [Ho|Ho]; [injection Ho as ->|discriminate]);
       (destruct (Z.eqb_spec id' id); [contradiction|reflexivity]).
+  - cbn [out_id] in Ho. destruct Ho as [Ho|Ho]; [injection Ho as ->|discriminate].
+    destruct (Z.eqb_spec id' id); [contradiction|reflexivity].
   - cbn [out_id] in Ho. destruct Ho as [Ho|Ho]; [injection Ho as ->|discriminate].
     destruct (Z.eqb_spec id' id); [contradiction|reflexivity].
   - cbn [out_id] in Ho. destruct Ho as [Ho|Ho]; [injection Ho as ->|discriminate].
@@ -136,14 +151,14 @@ Qed.
 (** outputs the scanner ignores *)
 Definition neutral (o : out) : bool :=
   match o with
-  | OEv (EvSent _ _ _ _) | OEv (EvFailed _ _ _) | OCreated _ | OClaimHit _ => false
+  | OEv (EvSent _ _ _ _) | OEv (EvFailed _ _ _) | OCreated _ | OClaimHit _ | OGone _ _ => false
   | _ => true
   end.
 
 Lemma scan_step_neutral id st o : neutral o = true -> scan_step id st o = st.
 Proof.
   destruct st as [s|]; [|reflexivity].
-  destruct o as [e| | | | |]; try discriminate; try reflexivity.
+  destruct o as [e| | | | | |]; try discriminate; try reflexivity.
   destruct e; try discriminate; reflexivity.
 Qed.
 
@@ -160,7 +175,8 @@ Definition live_entry (e : option payment) : Prop :=
 
 Definition InvE (e : option payment) (s : scan) : Prop :=
   (sc_seen s <> SNone \/ sc_claimed s = true -> ~ live_entry e) /\
-  (sc_live s = false -> e = None).
+  (sc_present s = true -> e <> None) /\
+  (sc_present s = false -> e = None).
 
 (** a transition on the entry of [id] is [good] when the scanner accepts its outputs and the
     invariant is re-established, and it talks about [id] only *)
@@ -171,19 +187,19 @@ Definition good (id : Z) (t : etrans) : Prop :=
 
 Lemma InvE_live_facts e s p :
   InvE e s -> e = Some p -> is_fulfilled p = false ->
-  sc_live s = true /\ sc_seen s = SNone /\ sc_claimed s = false.
+  sc_present s = true /\ sc_seen s = SNone /\ sc_claimed s = false.
 Proof.
-  intros [H1 H2] He Hf. subst e.
+  intros (H1 & H2 & H3) He Hf. subst e.
   assert (Hl : live_entry (Some p)) by (exists p; split; [reflexivity|exact Hf]).
   repeat split.
-  - destruct (sc_live s) eqn:E; [reflexivity|]. specialize (H2 eq_refl). discriminate.
+  - destruct (sc_present s) eqn:E; [reflexivity|]. specialize (H3 eq_refl). discriminate.
   - destruct (sc_seen s) eqn:E; [reflexivity| |]; exfalso; apply H1; try exact Hl; left; discriminate.
   - destruct (sc_claimed s) eqn:E; [|reflexivity]. exfalso. apply H1; [right; reflexivity|exact Hl].
 Qed.
 
-Lemma InvE_some_live e s p : InvE e s -> e = Some p -> sc_live s = true.
+Lemma InvE_some_live e s p : InvE e s -> e = Some p -> sc_present s = true.
 Proof.
-  intros [_ H2] He. destruct (sc_live s) eqn:E; [reflexivity|]. rewrite (H2 eq_refl) in He. discriminate.
+  intros (_ & _ & H3) He. destruct (sc_present s) eqn:E; [reflexivity|]. rewrite (H3 eq_refl) in He. discriminate.
 Qed.
 
 (** the invariant only depends on absent / live / fulfilled *)
@@ -191,21 +207,31 @@ Lemma InvE_live_to_live s p p' :
   InvE (Some p) s -> is_fulfilled p = false -> InvE (Some p') s.
 Proof.
   intros H Hf. destruct (InvE_live_facts _ _ _ H eq_refl Hf) as (Hl & Hs & Hc).
-  split.
+  split; [|split].
   - intros [Hx|Hx]; [rewrite Hs in Hx; contradiction|rewrite Hc in Hx; discriminate].
+  - intros _. discriminate.
   - intros Hx. rewrite Hl in Hx. discriminate.
 Qed.
 
-Lemma InvE_fulfilled s p : sc_live s = true -> is_fulfilled p = true -> InvE (Some p) s.
+Lemma InvE_fulfilled s p : sc_present s = true -> is_fulfilled p = true -> InvE (Some p) s.
 Proof.
-  intros Hl Hf. split.
+  intros Hl Hf. split; [|split].
   - intros _ [q [Hq Hq']]. injection Hq as <-. rewrite Hf in Hq'. discriminate.
+  - intros _. discriminate.
   - intros Hx. rewrite Hl in Hx. discriminate.
 Qed.
 
-Lemma InvE_none s : InvE None s.
+Lemma InvE_none s : sc_present s = false -> InvE None s.
 Proof.
-  split; [|reflexivity]. intros _ [q [Hq _]]. discriminate.
+  intros Hp. split; [|split].
+  - intros _ [q [Hq _]]. discriminate.
+  - intros Hx. rewrite Hp in Hx. discriminate.
+  - reflexivity.
+Qed.
+
+Lemma InvE_none_present e s : InvE e s -> e = None -> sc_present s = false.
+Proof.
+  intros (_ & H2 & _) He. destruct (sc_present s) eqn:E; [|reflexivity]. exfalso. apply (H2 eq_refl). exact He.
 Qed.
 
 Lemma not_live_fulfilled p : is_fulfilled p = true -> ~ live_entry (Some p).
@@ -230,7 +256,7 @@ Proof.
       destruct (is_nil parts) eqn:En; cbn [fst snd].
       * split; [oa_tac|]. eexists. split.
         { unfold scan_list; cbn [fold_left scan_step]. rewrite Z.eqb_refl, Hl, Hc, Hs. cbn [andb negb]. reflexivity. }
-        apply InvE_none.
+        apply InvE_none; reflexivity.
       * split; [oa_tac|]. eexists. split; [reflexivity|].
         eapply InvE_live_to_live; [exact HI|reflexivity].
     + split; [oa_tac|]. eexists. split; [reflexivity|exact HI].
@@ -239,13 +265,13 @@ Proof.
       destruct (is_nil parts) eqn:En; cbn [fst snd].
       * split; [oa_tac|]. eexists. split.
         { unfold scan_list; cbn [fold_left scan_step]. rewrite Z.eqb_refl, Hl, Hc, Hs. cbn [andb negb]. reflexivity. }
-        apply InvE_none.
+        apply InvE_none; reflexivity.
       * split; [oa_tac|]. eexists. split; [reflexivity|exact HI].
     + (* AwaitingInvoice *)
       destruct (InvE_live_facts _ _ _ HI eq_refl eq_refl) as (Hl & Hs & Hc).
       cbn [fst snd]. split; [oa_tac|]. eexists. split.
       { unfold scan_list; cbn [fold_left scan_step]. rewrite Z.eqb_refl, Hl, Hc, Hs. cbn [andb negb]. reflexivity. }
-      apply InvE_none.
+      apply InvE_none; reflexivity.
   - split; [oa_tac|]. eexists. split; [reflexivity|exact HI].
 Qed.
 
@@ -262,22 +288,29 @@ Proof. destruct p; cbn [pm_remove]; try destruct (mem sp parts); reflexivity. Qe
 Lemma pm_insert_awaiting p sp a f : is_awaiting (fst (pm_insert p sp a f)) = is_awaiting p.
 Proof. destruct p; cbn [pm_insert]; try destruct (mem sp parts); reflexivity. Qed.
 
+Lemma InvE_created p : is_fulfilled p = false ->
+  InvE (Some p) {| sc_present := true; sc_seen := SNone; sc_claimed := false |}.
+Proof.
+  intros _. split; [|split]; cbn [sc_seen sc_claimed sc_present];
+    [intros [H|H]; [contradiction|discriminate]|discriminate|discriminate].
+Qed.
+
 Ltac scan_go :=
   repeat (cbv beta iota delta [scan_list fold_left scan_step app];
-          cbn [sc_live sc_seen sc_claimed andb negb];
+          cbn [sc_present sc_seen sc_claimed andb negb];
           rewrite ?Z.eqb_refl;
           repeat match goal with
-                 | H : sc_live _ = _ |- _ => rewrite H
+                 | H : sc_present _ = _ |- _ => rewrite H
                  | H : sc_seen _ = _ |- _ => rewrite H
                  | H : sc_claimed _ = _ |- _ => rewrite H
                  end);
   reflexivity.
 
 Ltac fin_inv HI :=
-  first [ apply InvE_none
-        | exact HI
+  first [ exact HI
+        | (apply InvE_none; cbn [sc_present]; reflexivity)
         | (eapply InvE_live_to_live; [exact HI|reflexivity])
-        | (apply InvE_fulfilled; [cbn [sc_live]; first [reflexivity|assumption]|reflexivity]) ].
+        | (apply InvE_fulfilled; [cbn [sc_present]; first [reflexivity|assumption]|reflexivity]) ].
 
 Ltac leaf HI :=
   cbn [fst snd app]; split; [solve [oa_tac]|]; eexists; split; [scan_go|fin_inv HI].
@@ -354,8 +387,8 @@ Proof.
   - pose proof (InvE_some_live _ _ _ HI eq_refl) as Hlive.
     destruct p as [r a hp parts h pa pf tot rf|parts h t tot f|parts h r tot f|n r];
       cbn [pm_insert]; split_ifs; leaf HI.
-  - cbn [fst snd]. split; [oa_tac|]. eexists. split; [scan_go|].
-    split; cbn [sc_seen sc_claimed sc_live]; [intros [H|H]; [contradiction|discriminate]|discriminate].
+  - pose proof (InvE_none_present _ _ HI eq_refl) as Hp.
+    cbn [fst snd]. split; [oa_tac|]. eexists. split; [scan_go|]. apply InvE_created. reflexivity.
 Qed.
 
 (** ** the retain pass of check_retry_payments *)
@@ -373,15 +406,10 @@ Proof.
 Qed.
 
 (** ** add_new_awaiting_invoice *)
-Lemma InvE_created p : is_fulfilled p = false ->
-  InvE (Some p) {| sc_live := true; sc_seen := SNone; sc_claimed := false |}.
-Proof.
-  intros _. split; cbn [sc_seen sc_claimed sc_live]; [intros [H|H]; [contradiction|discriminate]|discriminate].
-Qed.
-
 Lemma good_await id ticks retry : good id (await_t id ticks retry).
 Proof.
   intros c e s HI. unfold await_t. destruct e as [p|]; [leaf HI|].
+  pose proof (InvE_none_present _ _ HI eq_refl) as Hp.
   cbn [fst snd]. split; [oa_tac|]. eexists. split; [scan_go|]. apply InvE_created. reflexivity.
 Qed.
 
@@ -510,4 +538,491 @@ Proof.
       cbn [fst snd] in *.
       apply accepted_quiet_prefix; [exact Hq|]. apply Hap.
       intros p2 fv1 mf1 Hf2. apply IH. eapply InvE_live_to_live; [exact HI|reflexivity].
+Qed.
+
+(** chaining two accepted output blocks *)
+Lemma accepted_chain id s e1 o1 e2 o2 :
+  accepted id s e1 o1 -> (forall s1, InvE e1 s1 -> accepted id s1 e2 o2) -> accepted id s e2 (o1 ++ o2).
+Proof.
+  intros [Ha1 [s1 [Hs1 Hi1]]] H2. destruct (H2 s1 Hi1) as [Ha2 [s2 [Hs2 Hi2]]]. split.
+  - apply only_about_app; assumption.
+  - exists s2. split; [|exact Hi2]. rewrite scan_list_app, Hs1. exact Hs2.
+Qed.
+
+Lemma retry_loop_accepted id : forall fuel answers e c s, InvE e s ->
+  accepted id s (fst (retry_loop fuel answers id e c)) (snd (retry_loop fuel answers id e c)).
+Proof.
+  induction fuel as [|f IH]; intros answers e c s HI; cbn [retry_loop].
+  - cbn [fst snd]. apply accepted_quiet_only; [exact HI|apply quiet_nil].
+  - destruct e as [p|]; [|cbn [fst snd]; apply accepted_quiet_only; [exact HI|apply quiet_nil]].
+    destruct p as [r a hp parts h pa pf tot rf|parts h t tot f0|parts h r tot f0|n r];
+      try (cbn [fst snd]; apply accepted_quiet_only; [exact HI|apply quiet_nil]).
+    destruct (is_auto_retryable_now (Retryable r a hp parts h pa pf tot rf) && (pa <? tot));
+      [|cbn [fst snd]; apply accepted_quiet_only; [exact HI|apply quiet_nil]].
+    pose proof (frs_accepted id answers (Some (Retryable r a hp parts h pa pf tot rf)) c (tot - pa) rf s HI) as H1.
+    destruct (frs answers id (Some (Retryable r a hp parts h pa pf tot rf)) c (tot - pa) rf) as [[e1 outs1] rest].
+    cbn [fst snd] in H1.
+    pose proof (fun s1 H => IH rest e1 (c + count_new outs1) s1 H) as H2.
+    destruct (retry_loop f rest id e1 (c + count_new outs1)) as [e2 outs2]. cbn [fst snd] in *.
+    eapply accepted_chain; [exact H1|exact H2].
+Qed.
+
+Lemma good_retry answers id : good id (retry_t answers id).
+Proof. intros c e s HI. unfold retry_t. apply retry_loop_accepted. exact HI. Qed.
+
+(** ** add_new_pending_payment, send_payment *)
+Lemma good_add id hash retry paths mf : good id (add_t id hash retry paths mf).
+Proof.
+  intros c e s HI. unfold add_t. destruct e as [p|]; [leaf HI|].
+  pose proof (InvE_none_present _ _ HI eq_refl) as Hp.
+  set (ps := map (fun af : Z * Z => {| pr_amt := fst af; pr_fee := snd af; pr_res := SOk |}) paths).
+  set (p0 := Retryable retry 0 true [] hash 0 (Some 0) (sum (map pr_amt ps)) mf).
+  pose proof (insert_all_spec id hash p0 c ps) as [Hq Hf].
+  destruct (insert_all id hash p0 c ps) as [p1 news]. cbn [fst snd] in *.
+  split.
+  - apply only_about_cons; [left; reflexivity|]. apply only_about_cons; [right; reflexivity|apply Hq].
+  - eexists. split.
+    + unfold scan_list. cbn [fold_left scan_step]. rewrite Z.eqb_refl, Hp.
+      change (fold_left (scan_step id) news ?x) with (scan_list id x news).
+      apply scan_quiet. exact Hq.
+    + apply InvE_created. rewrite Hf. reflexivity.
+Qed.
+
+Lemma good_send id hash retry amt mf answers : good id (send_t id hash retry amt mf answers).
+Proof.
+  intros c e s HI. unfold send_t.
+  destruct answers as [|a rest]; [leaf HI|].
+  destruct a as [|k fees over res]; [leaf HI|].
+  destruct e as [p|]; [leaf HI|].
+  pose proof (InvE_none_present _ _ HI eq_refl) as Hp.
+  set (paths := paths_of amt k fees over res).
+  set (p0 := Retryable (Some retry) 0 true [] hash 0 (Some 0) (sum (map pr_amt paths)) mf).
+  pose proof (insert_all_spec id hash p0 c paths) as [Hq Hf].
+  destruct (insert_all id hash p0 c paths) as [p1 news]. cbn [fst snd] in Hq, Hf.
+  set (s1 := {| sc_present := true; sc_seen := SNone; sc_claimed := false |}).
+  assert (HI1 : InvE (Some p1) s1) by (apply InvE_created; rewrite Hf; reflexivity).
+  assert (Hl1 : is_fulfilled p1 = false) by (rewrite Hf; reflexivity).
+  pose proof (after_pay_accepted id s1 p1 c paths amt mf
+                (fun e1 fv1 mf1 => frs rest id e1 (c + Z.of_nat (List.length paths)) fv1 mf1) rest HI1 Hl1) as Hap.
+  cbv zeta in Hap.
+  destruct (after_pay _ _ id p1 c paths amt mf) as [evs [[e' outs] rest']]. cbn [fst snd] in *.
+  assert (Hacc : accepted id s1 e' (news ++ evs ++ outs)).
+  { apply accepted_quiet_prefix; [exact Hq|]. apply Hap. intros p2 fv1 mf1 Hf2. apply frs_accepted.
+    eapply InvE_live_to_live; [exact HI1|exact Hl1]. }
+  destruct Hacc as [Ha [s' [Hs Hi']]]. split.
+  - apply only_about_cons; [left; reflexivity|]. apply only_about_cons; [right; reflexivity|exact Ha].
+  - exists s'. split; [|exact Hi'].
+    unfold scan_list. cbn [fold_left scan_step]. rewrite Z.eqb_refl, Hp. exact Hs.
+Qed.
+
+(** * lifting to states *)
+Definition InvS (id : Z) (st : state) (s : scan) : Prop := InvE (get id (pm st)) s.
+
+Lemma apply_e_inv id0 t st id s :
+  good id0 t -> InvS id st s ->
+  exists s', scan_list id (Some s) (snd (apply_e id0 t st)) = Some s' /\ InvS id (fst (apply_e id0 t st)) s'.
+Proof.
+  intros Hg HI. unfold apply_e, InvS in *.
+  destruct (Z.eq_dec id id0) as [->|Hne].
+  - destruct (Hg (ctr st) (get id0 (pm st)) s HI) as [_ [s' [Hs Hi]]].
+    destruct (t (ctr st) (get id0 (pm st))) as [o outs]. cbn [fst snd pm] in *.
+    exists s'. split; [exact Hs|]. rewrite get_set_eq. exact Hi.
+  - assert (Hx : exists sx, InvE (get id0 (pm st)) sx).
+    { destruct (get id0 (pm st)) as [p0|].
+      - exists {| sc_present := true; sc_seen := SNone; sc_claimed := false |}.
+        split; [|split]; cbn [sc_seen sc_claimed sc_present];
+          [intros [H|H]; [contradiction|discriminate]|discriminate|discriminate].
+      - exists scan0. apply InvE_none. reflexivity. }
+    destruct Hx as [sx Hx].
+    destruct (Hg (ctr st) (get id0 (pm st)) _ Hx) as [Ha _].
+    destruct (t (ctr st) (get id0 (pm st))) as [o outs]. cbn [fst snd pm] in *.
+    exists s. split.
+    + apply (scan_list_other id id0); [congruence|exact Ha].
+    + rewrite get_set_neq by exact Hne. exact HI.
+Qed.
+
+Lemma apply_each_inv ids (t : state -> Z -> etrans) id :
+  (forall st0 i, good i (t st0 i)) ->
+  forall st s, InvS id st s ->
+  exists s', scan_list id (Some s) (snd (apply_each ids t st)) = Some s' /\ InvS id (fst (apply_each ids t st)) s'.
+Proof.
+  intros Hg. induction ids as [|i rest IH]; intros st s HI; cbn [apply_each].
+  - exists s. split; [reflexivity|exact HI].
+  - destruct (apply_e_inv i (t st i) st id s (Hg st i) HI) as [s1 [Hs1 Hi1]].
+    destruct (apply_e i (t st i) st) as [st1 o1]. cbn [fst snd] in *.
+    destruct (IH st1 s1 Hi1) as [s2 [Hs2 Hi2]].
+    destruct (apply_each rest t st1) as [st2 o2]. cbn [fst snd] in *.
+    exists s2. split; [|exact Hi2]. rewrite scan_list_app, Hs1. exact Hs2.
+Qed.
+
+Lemma with_htlc_inv st sp (f : hinfo -> state * list out) id s :
+  InvS id st s ->
+  (forall h, exists s', scan_list id (Some s) (snd (f h)) = Some s' /\ InvS id (fst (f h)) s') ->
+  exists s', scan_list id (Some s) (snd (with_htlc st sp f)) = Some s' /\ InvS id (fst (with_htlc st sp f)) s'.
+Proof.
+  intros HI Hf. unfold with_htlc. destruct (get sp (htl st)) as [h|]; [apply Hf|].
+  exists s. split; [reflexivity|exact HI].
+Qed.
+
+Lemma step_inv st o id s :
+  InvS id st s ->
+  exists s', scan_list id (Some s) (snd (step st o)) = Some s' /\ InvS id (fst (step st o)) s'.
+Proof.
+  intros HI. destruct o; cbn [step].
+  - apply apply_e_inv; [apply good_add|exact HI].
+  - apply apply_e_inv; [apply good_await|exact HI].
+  - apply apply_e_inv; [apply good_send|exact HI].
+  - destruct (apply_each_inv (keys (pm st)) (fun _ i => retry_t (answers_for i answers) i) id
+                (fun _ i => good_retry _ i) st s HI) as [s1 [Hs1 Hi1]].
+    destruct (apply_each (keys (pm st)) _ st) as [st1 o1]. cbn [fst snd] in *.
+    destruct (apply_each_inv (keys (pm st1)) (fun _ i => retain_t i) id
+                (fun _ i => good_retain i) st1 s1 Hi1) as [s2 [Hs2 Hi2]].
+    destruct (apply_each (keys (pm st1)) _ st1) as [st2 o2]. cbn [fst snd] in *.
+    exists s2. split; [|exact Hi2]. rewrite scan_list_app, Hs1. exact Hs2.
+  - apply with_htlc_inv; [exact HI|]. intros h. apply apply_e_inv; [apply good_claim|exact HI].
+  - (* finalize: fold over the sources *)
+    assert (Hgen : forall acc0 : state * list out,
+               forall s0, scan_list id (Some s) (snd acc0) = Some s0 -> InvS id (fst acc0) s0 ->
+               exists s', scan_list id (Some s)
+                            (snd (fold_left (fun acc sp => let '(s0, o0) := acc in
+                                   let '(s1, o1) := with_htlc s0 sp (fun h => apply_e (h_id h) (finalize_t (h_id h) sp) s0) in
+                                   (s1, o0 ++ o1)) sps acc0)) = Some s' /\
+                          InvS id (fst (fold_left (fun acc sp => let '(s0, o0) := acc in
+                                   let '(s1, o1) := with_htlc s0 sp (fun h => apply_e (h_id h) (finalize_t (h_id h) sp) s0) in
+                                   (s1, o0 ++ o1)) sps acc0)) s').
+    { induction sps as [|sp rest IH]; intros [st0 o0] s0 Hs0 Hi0; cbn [fold_left].
+      - exists s0. split; assumption.
+      - cbn [fst snd] in Hs0, Hi0.
+        destruct (with_htlc_inv st0 sp (fun h => apply_e (h_id h) (finalize_t (h_id h) sp) st0) id s0 Hi0) as [s1 [Hs1 Hi1]].
+        { intros h. apply apply_e_inv; [apply good_finalize|exact Hi0]. }
+        destruct (with_htlc st0 sp _) as [st1 o1]. cbn [fst snd] in *.
+        apply (IH (st1, o0 ++ o1) s1); cbn [fst snd]; [|exact Hi1].
+        rewrite scan_list_app, Hs0. exact Hs1. }
+    apply (Hgen (st, []) s); [reflexivity|exact HI].
+  - apply with_htlc_inv; [exact HI|]. intros h. apply apply_e_inv; [apply good_fail|exact HI].
+  - apply apply_e_inv; [apply good_abandon|exact HI].
+  - apply (apply_each_inv (keys (pm st)) (fun s0 i => tick_t (evq s0) i) id); [|exact HI].
+    intros st0 i. apply good_tick.
+  - cbn [fst snd]. exists s. split; [reflexivity|exact HI].
+  - apply with_htlc_inv; [exact HI|]. intros h. apply apply_e_inv; [apply good_startup|exact HI].
+Qed.
+
+(** the outputs of a run from any state whose entry for [id] satisfies the invariant are accepted *)
+Lemma run_inv : forall ops st id s,
+  InvS id st s ->
+  exists s', scan_list id (Some s) (List.concat (snd (run st ops))) = Some s' /\ InvS id (fst (run st ops)) s'.
+Proof.
+  induction ops as [|o rest IH]; intros st id s HI; cbn [run].
+  - exists s. split; [reflexivity|exact HI].
+  - destruct (step_inv st o id s HI) as [s1 [Hs1 Hi1]].
+    destruct (step st o) as [st1 outs]. cbn [fst snd] in *.
+    destruct (IH st1 id s1 Hi1) as [s2 [Hs2 Hi2]].
+    destruct (run st1 rest) as [st2 tr]. cbn [fst snd List.concat] in *.
+    exists s2. split; [|exact Hi2]. rewrite scan_list_app, Hs1. exact Hs2.
+Qed.
+
+Lemma InvS_init id : InvS id init scan0.
+Proof. unfold InvS. cbn. apply InvE_none. reflexivity. Qed.
+
+Theorem lifetime_scan : forall ops id, scan_list id (Some scan0) (trace ops) <> None.
+Proof.
+  intros ops id. destruct (run_inv ops init id scan0 (InvS_init id)) as [s' [Hs _]].
+  unfold trace. rewrite Hs. discriminate.
+Qed.
+
+(** * readable consequences of scanner acceptance *)
+Definition is_sent (id : Z) (o : out) : bool :=
+  match o with OEv (EvSent i _ _ _) => i =? id | _ => false end.
+Definition is_failed (id : Z) (o : out) : bool :=
+  match o with OEv (EvFailed i _ _) => i =? id | _ => false end.
+Definition is_terminal (id : Z) (o : out) : bool := is_sent id o || is_failed id o.
+Definition is_created (id : Z) (o : out) : bool :=
+  match o with OCreated i => i =? id | _ => false end.
+Definition is_claimhit (id : Z) (o : out) : bool :=
+  match o with OClaimHit i => i =? id | _ => false end.
+Definition is_gone (id : Z) (o : out) : bool :=
+  match o with OGone i _ => i =? id | _ => false end.
+(** the entry of [id] leaves the map *)
+Definition is_removal (id : Z) (o : out) : bool := is_failed id o || is_gone id o.
+
+Lemma scan_prefix id st a b : scan_list id st (a ++ b) <> None -> scan_list id st a <> None.
+Proof.
+  rewrite scan_list_app. intros H Hn. rewrite Hn, scan_list_none in H. apply H. reflexivity.
+Qed.
+
+Lemma scan_cons id st o t : scan_list id st (o :: t) = scan_list id (scan_step id st o) t.
+Proof. reflexivity. Qed.
+
+(** without a creation of [id]: the flags stay, and an absent entry stays absent *)
+Lemma scan_step_flags id s o s' :
+  scan_step id (Some s) o = Some s' -> is_created id o = false ->
+  (sc_seen s <> SNone -> sc_seen s' <> SNone) /\ (sc_claimed s = true -> sc_claimed s' = true) /\
+  (sc_present s = false -> sc_present s' = false).
+Proof.
+  intros H Hc. destruct o as [e|i|i|sp i h a f r|r|i w|]; cbn [scan_step is_created] in *.
+  - destruct e; try (injection H as <-; auto).
+    + destruct (id0 =? id); [|injection H as <-; auto].
+      destruct (sc_present s); [|discriminate]. destruct (sc_seen s); try discriminate.
+      injection H as <-. cbn. repeat split; intros; try discriminate; auto.
+    + destruct (id0 =? id); [|injection H as <-; auto].
+      destruct (sc_present s && negb (sc_claimed s)) eqn:E; [|discriminate].
+      destruct (sc_seen s); try discriminate. injection H as <-. cbn.
+      apply andb_true_iff in E as [_ E]. apply negb_true_iff in E.
+      repeat split; intros; try discriminate; auto; congruence.
+  - rewrite Hc in H. injection H as <-. auto.
+  - destruct (i =? id); [|injection H as <-; auto].
+    destruct (sc_present s) eqn:E; [|discriminate]. injection H as <-. cbn.
+    repeat split; intros; try discriminate; auto.
+  - injection H as <-. auto.
+  - injection H as <-. auto.
+  - destruct (i =? id); [|injection H as <-; auto].
+    destruct (sc_present s) eqn:E; [|discriminate]. injection H as <-. cbn. auto.
+  - injection H as <-. auto.
+Qed.
+
+Lemma scan_list_flags id : forall b s s',
+  scan_list id (Some s) b = Some s' -> existsb (is_created id) b = false ->
+  (sc_seen s <> SNone -> sc_seen s' <> SNone) /\ (sc_claimed s = true -> sc_claimed s' = true) /\
+  (sc_present s = false -> sc_present s' = false).
+Proof.
+  induction b as [|o t IH]; intros s s' H Hc.
+  - injection H as <-. auto.
+  - cbn [existsb] in Hc. apply orb_false_iff in Hc as [Hc1 Hc2].
+    rewrite scan_cons in H.
+    destruct (scan_step id (Some s) o) as [s1|] eqn:E1.
+    + destruct (scan_step_flags id s o s1 E1 Hc1) as (A & B & C).
+      destruct (IH s1 s' H Hc2) as (A' & B' & C'). auto.
+    + rewrite scan_list_none in H. discriminate.
+Qed.
+
+(** without a removal of [id]: a present entry stays present *)
+Lemma scan_step_present id s o s' :
+  scan_step id (Some s) o = Some s' -> is_removal id o = false ->
+  sc_present s = true -> sc_present s' = true.
+Proof.
+  unfold is_removal. intros H Hc Hp.
+  destruct o as [e|i|i|sp i h a f r|r|i w|]; cbn [scan_step is_failed is_gone orb] in *.
+  - destruct e; try (injection H as <-; exact Hp).
+    + destruct (id0 =? id); [|injection H as <-; exact Hp].
+      rewrite Hp in H. destruct (sc_seen s); try discriminate. injection H as <-. reflexivity.
+    + rewrite orb_false_r in Hc. rewrite Hc in H. injection H as <-. exact Hp.
+  - destruct (i =? id); [|injection H as <-; exact Hp]. rewrite Hp in H. discriminate.
+  - destruct (i =? id); [|injection H as <-; exact Hp]. rewrite Hp in H. injection H as <-. reflexivity.
+  - injection H as <-. exact Hp.
+  - injection H as <-. exact Hp.
+  - rewrite Hc in H. injection H as <-. exact Hp.
+  - injection H as <-. exact Hp.
+Qed.
+
+Lemma scan_list_present id : forall b s s',
+  scan_list id (Some s) b = Some s' -> existsb (is_removal id) b = false ->
+  sc_present s = true -> sc_present s' = true.
+Proof.
+  induction b as [|o t IH]; intros s s' H Hc Hp.
+  - injection H as <-. exact Hp.
+  - cbn [existsb] in Hc. apply orb_false_iff in Hc as [Hc1 Hc2]. rewrite scan_cons in H.
+    destruct (scan_step id (Some s) o) as [s1|] eqn:E1.
+    + apply (IH s1 s' H Hc2). apply (scan_step_present id s o s1 E1 Hc1 Hp).
+    + rewrite scan_list_none in H. discriminate.
+Qed.
+
+Lemma scan_terminal_needs id s o :
+  is_terminal id o = true -> scan_step id (Some s) o <> None ->
+  sc_present s = true /\ sc_seen s = SNone /\
+  exists s', scan_step id (Some s) o = Some s' /\ sc_seen s' <> SNone.
+Proof.
+  unfold is_terminal. intros Ht Hn. destruct o as [e| | | | | |]; try discriminate.
+  destruct e; try discriminate; cbn [is_sent is_failed orb scan_step] in *.
+  - rewrite orb_false_r in Ht. rewrite Ht in *.
+    destruct (sc_present s); [|contradiction]. destruct (sc_seen s); try contradiction.
+    repeat split; auto. eexists. split; [reflexivity|]. cbn. discriminate.
+  - rewrite Ht in *.
+    destruct (sc_present s && negb (sc_claimed s)) eqn:E; [|contradiction].
+    destruct (sc_seen s); try contradiction. apply andb_true_iff in E as [E _].
+    repeat split; auto. eexists. split; [reflexivity|]. cbn. discriminate.
+Qed.
+
+Lemma scan_failed_needs id s o :
+  is_failed id o = true -> scan_step id (Some s) o <> None -> sc_claimed s = false.
+Proof.
+  intros Ht Hn. destruct o as [e| | | | | |]; try discriminate.
+  destruct e; try discriminate; cbn [is_failed scan_step] in *. rewrite Ht in *.
+  destruct (sc_present s && negb (sc_claimed s)) eqn:E; [|contradiction].
+  apply andb_true_iff in E as [_ E]. apply negb_true_iff in E. exact E.
+Qed.
+
+(** splitting an accepted stream at one output *)
+Lemma accepted_split id s a x c :
+  scan_list id (Some s) (a ++ x :: c) <> None ->
+  exists sa sx, scan_list id (Some s) a = Some sa /\ scan_step id (Some sa) x = Some sx /\
+                scan_list id (Some sx) c <> None.
+Proof.
+  intros Hacc. rewrite scan_list_app in Hacc.
+  destruct (scan_list id (Some s) a) as [sa|] eqn:Ea; [|rewrite scan_list_none in Hacc; contradiction].
+  rewrite scan_cons in Hacc.
+  destruct (scan_step id (Some sa) x) as [sx|] eqn:Ex; [|rewrite scan_list_none in Hacc; contradiction].
+  exists sa, sx. auto.
+Qed.
+
+(** generic: in an accepted stream, between two terminal events of [id] lies a creation of [id] *)
+Lemma accepted_two_terminals id s a t1 b t2 c :
+  scan_list id (Some s) (a ++ t1 :: b ++ t2 :: c) <> None ->
+  is_terminal id t1 = true -> is_terminal id t2 = true ->
+  existsb (is_created id) b = true.
+Proof.
+  intros Hacc H1 H2.
+  destruct (existsb (is_created id) b) eqn:Eb; [reflexivity|exfalso].
+  destruct (accepted_split _ _ _ _ _ Hacc) as (sa & s1 & Ea & E1 & Hacc1).
+  assert (Hn1 : scan_step id (Some sa) t1 <> None) by (rewrite E1; discriminate).
+  destruct (scan_terminal_needs id sa t1 H1 Hn1) as (_ & _ & s1' & E1' & Hseen).
+  rewrite E1 in E1'. injection E1' as <-.
+  destruct (accepted_split _ _ _ _ _ Hacc1) as (sb & s2 & Eb' & E2 & _).
+  destruct (scan_list_flags id b s1 sb Eb' Eb) as (Hs & _ & _).
+  assert (Hn2 : scan_step id (Some sb) t2 <> None) by (rewrite E2; discriminate).
+  destruct (scan_terminal_needs id sb t2 H2 Hn2) as (_ & Hnone & _).
+  apply (Hs Hseen). exact Hnone.
+Qed.
+
+(** ... and between a claim that hit the entry and a later PaymentFailed *)
+Lemma accepted_claim_then_failed id s a h b f c :
+  scan_list id (Some s) (a ++ h :: b ++ f :: c) <> None ->
+  is_claimhit id h = true -> is_failed id f = true ->
+  existsb (is_created id) b = true.
+Proof.
+  intros Hacc H1 H2.
+  destruct (existsb (is_created id) b) eqn:Eb; [reflexivity|exfalso].
+  destruct (accepted_split _ _ _ _ _ Hacc) as (sa & s1 & Ea & E1 & Hacc1).
+  destruct h as [e|i|i|sp i hh aa ff r|r|i w|]; try discriminate. cbn [is_claimhit] in H1.
+  cbn [scan_step] in E1. rewrite H1 in E1. destruct (sc_present sa); [|discriminate]. injection E1 as <-.
+  destruct (accepted_split _ _ _ _ _ Hacc1) as (sb & s2 & Eb' & E2 & _).
+  destruct (scan_list_flags id b _ sb Eb' Eb) as (_ & Hc & _). cbn [sc_claimed] in Hc.
+  assert (Hn2 : scan_step id (Some sb) f <> None) by (rewrite E2; discriminate).
+  pose proof (scan_failed_needs id sb f H2 Hn2) as Hx. rewrite (Hc eq_refl) in Hx. discriminate.
+Qed.
+
+(** ... a terminal event needs an earlier creation when none is pending at the start *)
+Lemma accepted_terminal_after_creation id s a t c :
+  scan_list id (Some s) (a ++ t :: c) <> None -> sc_present s = false \/ sc_seen s <> SNone ->
+  is_terminal id t = true -> existsb (is_created id) a = true.
+Proof.
+  intros Hacc Hs Ht.
+  destruct (existsb (is_created id) a) eqn:Ea'; [reflexivity|exfalso].
+  destruct (accepted_split _ _ _ _ _ Hacc) as (sa & s1 & Ea & E1 & _).
+  assert (Hn1 : scan_step id (Some sa) t <> None) by (rewrite E1; discriminate).
+  destruct (scan_terminal_needs id sa t Ht Hn1) as (Hl & Hnone & _).
+  destruct (scan_list_flags id a s sa Ea Ea') as (Hk & _ & Hp).
+  destruct Hs as [Hs|Hs].
+  - rewrite (Hp Hs) in Hl. discriminate.
+  - apply (Hk Hs). exact Hnone.
+Qed.
+
+(** ... and between two creations of [id] the entry was removed *)
+Lemma accepted_two_creations id s a c1 b c2 c :
+  scan_list id (Some s) (a ++ c1 :: b ++ c2 :: c) <> None ->
+  is_created id c1 = true -> is_created id c2 = true ->
+  existsb (is_removal id) b = true.
+Proof.
+  intros Hacc H1 H2.
+  destruct (existsb (is_removal id) b) eqn:Eb; [reflexivity|exfalso].
+  destruct (accepted_split _ _ _ _ _ Hacc) as (sa & s1 & Ea & E1 & Hacc1).
+  destruct c1 as [e|i|i|sp i hh aa ff r|r|i w|]; try discriminate. cbn [is_created] in H1.
+  cbn [scan_step] in E1. rewrite H1 in E1. destruct (sc_present sa); [discriminate|]. injection E1 as <-.
+  destruct (accepted_split _ _ _ _ _ Hacc1) as (sb & s2 & Eb' & E2 & _).
+  pose proof (scan_list_present id b _ sb Eb' Eb eq_refl) as Hp.
+  destruct c2 as [e|i2|i2|sp i2 hh aa ff r|r|i2 w|]; try discriminate. cbn [is_created] in H2.
+  cbn [scan_step] in E2. rewrite H2, Hp in E2. discriminate.
+Qed.
+
+Theorem terminal_unique ops id a t1 b t2 c :
+  trace ops = a ++ t1 :: b ++ t2 :: c ->
+  is_terminal id t1 = true -> is_terminal id t2 = true -> existsb (is_created id) b = true.
+Proof.
+  intros Htr. apply (accepted_two_terminals id scan0 a t1 b t2 c). rewrite <- Htr. apply lifetime_scan.
+Qed.
+
+Theorem not_contradicted ops id a t1 b t2 c :
+  trace ops = a ++ t1 :: b ++ t2 :: c ->
+  (is_sent id t1 = true /\ is_failed id t2 = true) \/ (is_failed id t1 = true /\ is_sent id t2 = true) ->
+  existsb (is_created id) b = true.
+Proof.
+  intros Htr H. apply (terminal_unique ops id a t1 b t2 c Htr); unfold is_terminal;
+    destruct H as [[H1 H2]|[H1 H2]]; rewrite ?H1, ?H2, ?orb_true_r; reflexivity.
+Qed.
+
+Theorem failed_means_untouched ops id a h b f c :
+  trace ops = a ++ h :: b ++ f :: c ->
+  is_claimhit id h = true -> is_failed id f = true -> existsb (is_created id) b = true.
+Proof.
+  intros Htr. apply (accepted_claim_then_failed id scan0 a h b f c). rewrite <- Htr. apply lifetime_scan.
+Qed.
+
+Theorem terminal_needs_creation ops id a t c :
+  trace ops = a ++ t :: c -> is_terminal id t = true -> existsb (is_created id) a = true.
+Proof.
+  intros Htr. apply (accepted_terminal_after_creation id scan0 a t c).
+  - rewrite <- Htr. apply lifetime_scan.
+  - left. reflexivity.
+Qed.
+
+Theorem recreation_needs_removal ops id a c1 b c2 c :
+  trace ops = a ++ c1 :: b ++ c2 :: c ->
+  is_created id c1 = true -> is_created id c2 = true -> existsb (is_removal id) b = true.
+Proof.
+  intros Htr. apply (accepted_two_creations id scan0 a c1 b c2 c). rewrite <- Htr. apply lifetime_scan.
+Qed.
+
+(** the domain of the map is a function of the output stream: created and not removed since *)
+Theorem dom_tracks_trace ops id :
+  exists s', scan_list id (Some scan0) (trace ops) = Some s' /\
+             (sc_present s' = true <-> get id (pm (fst (run init ops))) <> None).
+Proof.
+  destruct (run_inv ops init id scan0 (InvS_init id)) as [s' [Hs (_ & H2 & H3)]].
+  exists s'. split; [exact Hs|]. split; [exact H2|].
+  intros Hne. destruct (sc_present s') eqn:E; [reflexivity|]. exfalso. apply Hne. apply H3. reflexivity.
+Qed.
+
+(** restart: from ANY state (reachable or not, e.g. any persisted snapshot) in which [id] is
+    Fulfilled, no operation list — [insert_from_monitor_on_startup], fails, abandons, retries
+    included — produces a terminal event for [id] before a new entry for [id] is created, and a
+    new entry is created only after the old one was removed *)
+Theorem fulfilled_snapshot_stays st id p ops :
+  get id (pm st) = Some p -> is_fulfilled p = true ->
+  (forall a t c, List.concat (snd (run st ops)) = a ++ t :: c -> is_terminal id t = true ->
+                 existsb (is_created id) a = true) /\
+  (forall a t c, List.concat (snd (run st ops)) = a ++ t :: c -> is_created id t = true ->
+                 existsb (is_removal id) a = true).
+Proof.
+  intros Hg Hf.
+  set (s := {| sc_present := true; sc_seen := SSent; sc_claimed := true |}).
+  assert (HI : InvS id st s) by (unfold InvS; rewrite Hg; apply InvE_fulfilled; [reflexivity|exact Hf]).
+  destruct (run_inv ops st id s HI) as [s' [Hs _]].
+  split; intros a t c Htr Ht.
+  - apply (accepted_terminal_after_creation id s a t c).
+    + rewrite <- Htr, Hs. discriminate.
+    + right. cbn. discriminate.
+    + exact Ht.
+  - destruct (existsb (is_removal id) a) eqn:Ea; [reflexivity|exfalso].
+    assert (Hacc : scan_list id (Some s) (a ++ t :: c) <> None) by (rewrite <- Htr, Hs; discriminate).
+    destruct (accepted_split _ _ _ _ _ Hacc) as (sa & s1 & Ea' & E1 & _).
+    pose proof (scan_list_present id a s sa Ea' Ea eq_refl) as Hp.
+    destruct t as [e|i|i|sp i hh aa ff r|r|i w|]; try discriminate. cbn [is_created] in Ht.
+    cbn [scan_step] in E1. rewrite Ht, Hp in E1. discriminate.
+Qed.
+
+(** restart, second half: from any state whatsoever, once a claim hits the entry of [id] no
+    PaymentFailed follows (until re-creation) *)
+Theorem pending_snapshot_claim_wins st id ops a h b f c :
+  List.concat (snd (run st ops)) = a ++ h :: b ++ f :: c ->
+  is_claimhit id h = true -> is_failed id f = true -> existsb (is_created id) b = true.
+Proof.
+  intros Htr.
+  assert (Hx : exists s, InvS id st s).
+  { unfold InvS. destruct (get id (pm st)) as [p0|].
+    - exists {| sc_present := true; sc_seen := SNone; sc_claimed := false |}.
+      split; [|split]; cbn [sc_seen sc_claimed sc_present];
+        [intros [H|H]; [contradiction|discriminate]|discriminate|discriminate].
+    - exists scan0. apply InvE_none. reflexivity. }
+  destruct Hx as [s HI].
+  destruct (run_inv ops st id s HI) as [s' [Hs _]].
+  apply (accepted_claim_then_failed id s a h b f c). rewrite <- Htr, Hs. discriminate.
 Qed.
